@@ -118,6 +118,12 @@ int main(void)
 #endif
 
 #define VC_IN_SIZE() ((size_t)vc_in_u64())
+/* ghost cell index: arbitrary, but small enough that pointer arithmetic with it cannot wrap */
+#define VC_GHOST_K()                          \
+  do {                                        \
+    vc_k = VC_IN_SIZE();                      \
+    VC_ASSUME(vc_k <= ((size_t)1 << 21));     \
+  } while(0)
 #define VC_IN_INT() ((int)(int64_t)vc_in_u64())
 #define VC_IN_DBL() vc_in_f64()
 /* NaN-tolerant bitwise-style equality for data movement obligations */
